@@ -896,41 +896,6 @@ func (e *Exec) rangeNext(x *ssa.Next, it *RangeIter) Value {
 
 // ---------------------------------------------------------------- channels / goroutines (minimal)
 
-type task struct {
-	cc   *ssa.CallCommon
-	fv   Value
-	args []Value
-}
-
-func (e *Exec) spawn(fr *frame, cc *ssa.CallCommon, fv Value, args []Value) {
-	e.tasks = append(e.tasks, task{cc, fv, args})
-}
-
-// runPendingTasks runs queued goroutines to completion (no pre-emption).
-func (e *Exec) runPendingTasks() {
-	for len(e.tasks) > 0 {
-		t := e.tasks[0]
-		e.tasks = e.tasks[1:]
-		func() {
-			e.inTask++
-			defer func() {
-				e.inTask--
-				if r := recover(); r != nil {
-					if _, ok := r.(taskParked); !ok {
-						panic(r)
-					}
-					e.rep.Stubs["goroutine parked in a blocking receive with nothing left to deliver (abandoned)"]++
-				}
-			}()
-			e.doCall(nil, t.cc, t.fv, t.args)
-		}()
-	}
-}
-
-// taskParked unwinds a goroutine (delayed task) that blocks in a receive which nothing in the harness can satisfy any more:
-// a server loop waiting for the next datagram. The goroutine is abandoned at that point, as if the observation ended there.
-type taskParked struct{}
-
 func (e *Exec) chanSend(ch *ChanObj, v Value) {
 	if ch == nil {
 		e.end("limit", "send on nil channel blocks forever")
@@ -939,13 +904,12 @@ func (e *Exec) chanSend(ch *ChanObj, v Value) {
 		e.definitePanic("chan", "send on closed channel")
 	}
 	if ch.Cap > 0 && len(ch.Buf) >= ch.Cap {
-		// a full buffered channel: let the other goroutines run (one may receive), otherwise the sender stays blocked
-		e.runPendingTasks()
-		if len(ch.Buf) >= ch.Cap {
-			if e.inTask > 0 {
-				panic(taskParked{})
-			}
+		// a full buffered channel: the sender waits until a receiver has made room
+		if !e.block(func() bool { return len(ch.Buf) < ch.Cap || ch.Closed }, false) {
 			e.end("limit", "send on a full channel blocks forever at "+e.where())
+		}
+		if ch.Closed {
+			e.definitePanic("chan", "send on closed channel")
 		}
 	}
 	ch.Buf = append(ch.Buf, v)
@@ -955,8 +919,10 @@ func (e *Exec) chanRecv(ch *ChanObj, commaOk bool, t types.Type) Value {
 	if ch == nil {
 		e.end("limit", "receive on nil channel blocks forever")
 	}
-	if len(ch.Buf) == 0 {
-		e.runPendingTasks()
+	if ch.Timer {
+		e.block(func() bool { return false }, true) // <-time.After(d): the other goroutines run first
+	} else if len(ch.Buf) == 0 && !ch.Closed {
+		e.block(func() bool { return len(ch.Buf) > 0 || ch.Closed }, false)
 	}
 	var v Value
 	ok := true
@@ -986,36 +952,74 @@ func (e *Exec) selectOp(fr *frame, x *ssa.Select) Value {
 	for i := range out {
 		out[i] = e.zeroValue(tup.At(i).Type())
 	}
-	ri := 2
+	chans := make([]*ChanObj, len(x.States))
+	hasTimer := false
 	for i, st := range x.States {
-		ch := e.get(fr, st.Chan).(*ChanObj)
-		if st.Dir == types.RecvOnly {
-			if ch != nil && (len(ch.Buf) > 0 || ch.Closed) {
-				out[0] = e.tb.Const(64, uint64(i))
-				if len(ch.Buf) > 0 {
-					out[ri] = ch.Buf[0]
-					ch.Buf = ch.Buf[1:]
-					out[1] = e.tb.True
-				} else {
-					out[1] = e.tb.False
-				}
-				return out
-			}
-			ri++
-		} else {
-			if ch != nil && !ch.Closed && (len(ch.Buf) < ch.Cap || ch.Cap == 0) {
-				ch.Buf = append(ch.Buf, e.get(fr, st.Send))
-				out[0] = e.tb.Const(64, uint64(i))
-				return out
+		chans[i] = e.get(fr, st.Chan).(*ChanObj)
+		if chans[i] != nil && chans[i].Timer {
+			hasTimer = true
+		}
+	}
+	ready := func(i int, timers bool) bool {
+		ch := chans[i]
+		if ch == nil {
+			return false
+		}
+		if ch.Timer != timers {
+			return false
+		}
+		if x.States[i].Dir == types.RecvOnly {
+			return len(ch.Buf) > 0 || ch.Closed
+		}
+		return !ch.Closed && (len(ch.Buf) < ch.Cap || ch.Cap == 0)
+	}
+	anyReady := func() bool {
+		for i := range chans {
+			if ready(i, false) {
+				return true
 			}
 		}
+		return false
+	}
+	take := func(timers bool) bool {
+		ri := 2
+		for i, st := range x.States {
+			if st.Dir == types.RecvOnly {
+				if ready(i, timers) {
+					ch := chans[i]
+					out[0] = e.tb.Const(64, uint64(i))
+					if len(ch.Buf) > 0 {
+						out[ri] = ch.Buf[0]
+						ch.Buf = ch.Buf[1:]
+						out[1] = e.tb.True
+					} else {
+						out[1] = e.tb.False
+					}
+					return true
+				}
+				ri++
+			} else if ready(i, timers) {
+				chans[i].Buf = append(chans[i].Buf, e.get(fr, st.Send))
+				out[0] = e.tb.Const(64, uint64(i))
+				return true
+			}
+		}
+		return false
+	}
+	if take(false) {
+		return out
 	}
 	if !x.Blocking {
 		out[0] = e.tb.ConstI(64, -1)
 		return out
 	}
-	if e.inTask > 0 {
-		panic(taskParked{}) // a goroutine waiting in a select that nothing can satisfy any more
+	// a timer case (time.After) fires only when nothing else in the system can run
+	e.block(anyReady, hasTimer)
+	if take(false) {
+		return out
+	}
+	if hasTimer && take(true) {
+		return out
 	}
 	e.end("limit", "blocking select with no ready case at "+e.where())
 	return nil
